@@ -679,7 +679,7 @@ class Explorer:
         self.decisions += 1
         if self.dead:
             self._dead_steps += 1
-            if self._dead_steps > 2000:
+            if self._dead_steps > 300:
                 raise DeadPathBudget()
             return False
         if self.pos < len(self.plan):
@@ -699,7 +699,12 @@ class Explorer:
                     guess = True
                 elif r == z3.unsat:
                     guess = False
-                    # the other side must be feasible (pc is satisfiable)
+                    # normally the other side is feasible (pc is satisfiable); under lazily instantiated axioms (ABSTRACT mode) the
+                    # path condition itself may have become infeasible since the last decision: then the path is dead
+                    if self.mode == 'ABSTRACT' and self.check(z3.Not(cond)) == z3.unsat:
+                        self.dead = True
+                        self._dead_steps = 0
+                        return False
                     taken, alt = False, False
                     self.pos += 1
                     self.trace.append((taken, alt, payload))
@@ -745,11 +750,15 @@ class Explorer:
 
     def assume_def(self, cond):
         """Definitional constraint on a fresh variable (always satisfiable): no feasibility query."""
+        if self.dead:
+            return
         self.solver.add(cond)
         if self._model_says(cond) is not True:
             self._model = None
 
     def axiom(self, key, mk):
+        if self.dead:
+            return
         if key in self._axioms:
             return
         self._axioms.add(key)
@@ -761,6 +770,8 @@ class Explorer:
     # bookkeeping for instantiating monotonicity axioms between abstract terms
     def note_mul(self, a, b, m):
         """monotonicity between products that share a factor (indexed by factor; each product once)"""
+        if self.dead:
+            return
         key = (a.get_id(), b.get_id())
         if key in self._mul_seen:
             return
@@ -779,6 +790,8 @@ class Explorer:
 
     def note_div(self, a, b, q):
         """cross-multiplication / monotonicity between quotients that share the numerator or the denominator"""
+        if self.dead:
+            return
         if any(q.get_id() == q2.get_id() for (_, _, q2) in self._divs):
             return
         for (a2, b2, q2) in self._divs:
@@ -795,6 +808,8 @@ class Explorer:
         self._divs.append((a, b, q))
 
     def note_root(self, n, a, d):
+        if self.dead:
+            return
         for (n2, a2, d2) in self._roots:
             if n2 == n and a2.get_id() != a.get_id():
                 self.solver.add(z3.Implies(a < a2, d < d2), z3.Implies(a2 < a, d2 < d), z3.Implies(a == a2, d == d2))
@@ -802,6 +817,8 @@ class Explorer:
         self._roots.append((n, a, d))
 
     def note_pow(self, e, a, p):
+        if self.dead:
+            return
         for (e2, a2, p2) in self._pows:
             if e2 == e and a2.get_id() != a.get_id():
                 self.solver.add(z3.Implies(z3.And(a >= 0, a2 >= 0, a < a2), p < p2),
